@@ -8,7 +8,7 @@ from .. import symtrace as st, common
 from ..gen_lean import Def
 from ..runner import Corr, Failure
 
-LEAN_MODULES = ['SvgVerif.Props.C08', 'SvgVerif.Props.C08Arc']
+LEAN_MODULES = ['SvgVerif.Props.C08', 'SvgVerif.Props.C08Arc', 'SvgVerif.Props.C08ArcParam']
 
 
 def _cubic_with_critical(r1, r2, k, c):
@@ -105,7 +105,8 @@ class allow_eq:
         self.c.allow_eq = self.old
 
 
-GEN = {'C08': gen_defs}
+from . import c04 as _c04
+GEN = {'C08': gen_defs, 'C04': _c04.gen_defs}     # C08ArcParam uses C04's traced Arc.point (point_zero / point_one)
 
 ASSUMPTIONS = [
     'math.sqrt is an oracle in the closed form; np.roots is the oracle when the cubic term of a coordinate vanishes and for quadratics (the theorem there would be conditional on "the roots returned contain every interior zero of the derivative"; that route is sampled)',
